@@ -94,6 +94,7 @@ type Exec struct {
 	usedMonitor bool
 	globalVal   map[string]Term
 	lockSnap    *State
+	allocKinds  map[string]bool
 	methodVals  map[string]methodVal
 	litVals     map[string]*ast.FuncLit
 }
@@ -105,7 +106,7 @@ type methodVal struct {
 
 func NewExec(p *Program, smtStr bool) *Exec {
 	return &Exec{prog: p, vc: NewVC(smtStr), obIndex: map[string]*Obligation{}, init0: map[string]Term{}, noteSet: map[string]bool{},
-		dropped: map[string]bool{}, externs: map[string]bool{}, inlined: map[string]bool{}, havocs: map[string]bool{}, maxInl: 6, safety: true, globalVal: map[string]Term{}, methodVals: map[string]methodVal{}, litVals: map[string]*ast.FuncLit{}}
+		dropped: map[string]bool{}, externs: map[string]bool{}, inlined: map[string]bool{}, havocs: map[string]bool{}, maxInl: 6, safety: true, globalVal: map[string]Term{}, allocKinds: map[string]bool{}, methodVals: map[string]methodVal{}, litVals: map[string]*ast.FuncLit{}}
 }
 
 func (e *Exec) note(format string, a ...any) {
